@@ -2,6 +2,7 @@
 //! Every request is run against the real momtrop code (path dependency on /repo, features
 //! `log` + `verif-hooks`) under `catch_unwind`. Floats travel as IEEE-754 bit patterns.
 
+mod extra;
 mod scalars;
 
 use momtrop::float::MomTropFloat;
@@ -114,7 +115,7 @@ impl Logger for CaptureLogger {
 // ------------------------------------------------------------------------------------------------
 // graphs and tables
 // ------------------------------------------------------------------------------------------------
-fn graph_from(j: &Value) -> Graph {
+pub fn graph_from(j: &Value) -> Graph {
     let edges = j["edges"]
         .as_array()
         .unwrap()
@@ -129,7 +130,7 @@ fn graph_from(j: &Value) -> Graph {
     Graph { edges, externals }
 }
 
-fn table_to_bits(t: &TropicalSubgraphTable) -> Value {
+pub fn table_to_bits(t: &TropicalSubgraphTable) -> Value {
     let v = serde_json::to_value(t).unwrap();
     let tg = &v["tropical_graph"];
     let edges: Vec<Value> = tg["topology"]
@@ -156,12 +157,27 @@ fn table_to_bits(t: &TropicalSubgraphTable) -> Value {
     })
 }
 
+/// the tree of field names of a serialised value (arrays are represented by their first element)
+pub fn key_tree(v: &Value) -> Value {
+    match v {
+        Value::Object(m) => Value::Object(m.iter().map(|(k, x)| (k.clone(), key_tree(x))).collect()),
+        Value::Array(a) => match a.first() {
+            Some(x) => json!([key_tree(x)]),
+            None => json!([]),
+        },
+        Value::Number(_) => json!("number"),
+        Value::Bool(_) => json!("bool"),
+        Value::String(_) => json!("string"),
+        Value::Null => Value::Null,
+    }
+}
+
 fn num(x: f64) -> Value {
     serde_json::Number::from_f64(x).map(Value::Number).unwrap_or_else(|| panic!("harness: non-finite float in table"))
 }
 
 /// Build a real `TropicalSubgraphTable` from the bits format through its `Deserialize` impl.
-fn table_from_bits(t: &Value) -> TropicalSubgraphTable {
+pub fn table_from_bits(t: &Value) -> TropicalSubgraphTable {
     let topology: Vec<Value> = t["edges"]
         .as_array()
         .unwrap()
@@ -410,7 +426,7 @@ fn edge_data_from<const D: usize>(j: &Value) -> Vec<(Option<f64>, Vector<f64, D>
         .collect()
 }
 
-fn sample_result_json<const D: usize>(
+pub fn sample_result_json<const D: usize>(
     r: &Result<momtrop::TropicalSampleResult<f64, D>, SamplingError>,
 ) -> Value {
     match r {
